@@ -276,7 +276,7 @@ def execute(plan, oracles=(), generate=False, keep_states=False, on_loaded=None,
             for o in step_ops:
                 if o["k"] == "fail":
                     fails.setdefault(o["site"], set()).add(o["n"])
-            if fails and seams.BUGGIFY.installed:
+            if fails and rs.get("buggify") and seams.BUGGIFY.installed:
                 seams.BUGGIFY.arm(fails)
             prev = rp.s
             del spy_log[:]
@@ -293,7 +293,7 @@ def execute(plan, oracles=(), generate=False, keep_states=False, on_loaded=None,
                 for o in oracles:
                     run.violations.extend(o.aborted(run, k, e) or ())
                 break
-            fired = seams.BUGGIFY.disarm() if fails else []
+            fired = seams.BUGGIFY.disarm() if (fails and rs.get("buggify")) else []
             for site, n in fired:
                 run.stats["injected_update_failure[%s]" % site] += 1
             reports = [r for b in cap.batches[nb0:] for r in b]
